@@ -39,8 +39,8 @@ Theorem C14_pad_shape :
 Proof. exact pad_shape. Qed.
 Print Assumptions C14_pad_shape.
 
-(** MD5, SHA-1, SHA-256, SHA-512 as modelled from tlx/digest/*.cpp (tables and geometry regenerated from the
-    sources): digest(), digest_hex(), digest_hex_uc() after any sequence of process() calls return the
+(** MD5, SHA-1, SHA-256, SHA-512 as modelled from tlx/digest/*.cpp (constant tables regenerated from the
+    sources; control structure and block geometry hand-modelled and tied by the correspondence run): digest(), digest_hex(), digest_hex_uc() after any sequence of process() calls return the
     standard's digest of the concatenated message in raw, lower-case and upper-case hexadecimal form.
     The only hypothesis on the message is the algorithm's own domain: none for MD5 (RFC 1321 uses the bit length
     modulo 2^64, and so does the code), fewer than 2^64 bits for SHA-1 / SHA-256 (the limit of FIPS 180-4) and for
